@@ -13,9 +13,15 @@ import (
 )
 
 // Bounds limits the deviations explored (-1: unbounded).
-type Bounds struct{ P, D, F int }
+// T (if > 0) additionally bounds the total number of deviations P+D+F.
+type Bounds struct{ P, D, F, T int }
 
-func (b Bounds) String() string { return fmt.Sprintf("P%d D%d F%d", b.P, b.D, b.F) }
+func (b Bounds) String() string {
+	if b.T > 0 {
+		return fmt.Sprintf("P%d D%d F%d T%d", b.P, b.D, b.F, b.T)
+	}
+	return fmt.Sprintf("P%d D%d F%d", b.P, b.D, b.F)
+}
 
 type Scenario struct {
 	Name   string
@@ -68,7 +74,8 @@ type work struct {
 }
 
 func within(c [4]int, b Bounds) bool {
-	return (b.P < 0 || c[CostP] <= b.P) && (b.D < 0 || c[CostD] <= b.D) && (b.F < 0 || c[CostF] <= b.F)
+	return (b.P < 0 || c[CostP] <= b.P) && (b.D < 0 || c[CostD] <= b.D) && (b.F < 0 || c[CostF] <= b.F) &&
+		(b.T <= 0 || c[CostP]+c[CostD]+c[CostF] <= b.T)
 }
 
 func (sc *Scenario) runOnce(prefix []int, log bool) *Outcome {
@@ -126,25 +133,29 @@ func Explore(sc *Scenario, shard, nshards int) *Result {
 	type ckey struct {
 		a, b, alt uint64
 	}
-	cache := map[ckey][3]int{}
+	cache := map[ckey][4]int{}
 	states := map[[2]uint64]struct{}{}
-	rem := func(c [4]int) [3]int {
+	rem := func(c [4]int) [4]int {
 		f := func(b, used int) int {
 			if b < 0 {
 				return 1 << 30
 			}
 			return b - used
 		}
-		return [3]int{f(sc.Bounds.P, c[CostP]), f(sc.Bounds.D, c[CostD]), f(sc.Bounds.F, c[CostF])}
+		t := 1 << 30
+		if sc.Bounds.T > 0 {
+			t = sc.Bounds.T - c[CostP] - c[CostD] - c[CostF]
+		}
+		return [4]int{f(sc.Bounds.P, c[CostP]), f(sc.Bounds.D, c[CostD]), f(sc.Bounds.F, c[CostF]), t}
 	}
 	// visit reports whether (state, alt) was already explored with at least this budget; records it otherwise
-	visit := func(fp [2]uint64, alt uint64, r [3]int) bool {
+	visit := func(fp [2]uint64, alt uint64, r [4]int) bool {
 		k := ckey{fp[0], fp[1], alt}
 		states[fp] = struct{}{}
-		if old, ok := cache[k]; ok && old[0] >= r[0] && old[1] >= r[1] && old[2] >= r[2] {
+		if old, ok := cache[k]; ok && old[0] >= r[0] && old[1] >= r[1] && old[2] >= r[2] && old[3] >= r[3] {
 			return true
 		}
-		if old, ok := cache[k]; !ok || (r[0] >= old[0] && r[1] >= old[1] && r[2] >= old[2]) {
+		if old, ok := cache[k]; !ok || (r[0] >= old[0] && r[1] >= old[1] && r[2] >= old[2] && r[3] >= old[3]) {
 			cache[k] = r
 		}
 		return false
@@ -338,7 +349,7 @@ func ExploreSharded(sc *Scenario, nshards int, extraArgs ...string) *Result {
 		wg.Add(1)
 		go func(k int) {
 			defer wg.Done()
-			args := append([]string{fmt.Sprintf("-vsched-shard=%s:%d:%d:%d:%d:%d:%d", sc.Name, k, nshards, sc.Bounds.P, sc.Bounds.D, sc.Bounds.F, int64(sc.Budget/time.Second))}, extraArgs...)
+			args := append([]string{fmt.Sprintf("-vsched-shard=%s:%d:%d:%d:%d:%d:%d:%d", sc.Name, k, nshards, sc.Bounds.P, sc.Bounds.D, sc.Bounds.F, int64(sc.Budget/time.Second), sc.Bounds.T)}, extraArgs...)
 			cmd := exec.Command(os.Args[0], args...)
 			cmd.Env = append(os.Environ(), "GOMAXPROCS=2")
 			cmd.Stderr = os.Stderr
@@ -376,12 +387,14 @@ func ServeShard(lookup func(name string) *Scenario) {
 			fmt.Sscan(f[4], &d)
 			fmt.Sscan(f[5], &fl)
 			fmt.Sscan(f[6], &budget)
+			var tot int
+			fmt.Sscan(f[7], &tot)
 			sc := lookup(f[0])
 			if sc == nil {
 				fmt.Fprintf(os.Stderr, "unknown scenario %q\n", f[0])
 				os.Exit(2)
 			}
-			sc.Bounds = Bounds{p, d, fl}
+			sc.Bounds = Bounds{p, d, fl, tot}
 			sc.Budget = time.Duration(budget) * time.Second
 			r := Explore(sc, k, n)
 			b, _ := json.Marshal(r)
@@ -411,3 +424,9 @@ func (r *Result) SortedOutcomes(max int) []string {
 	}
 	return out
 }
+
+// RunLogged runs one execution on exactly the given choices with the event log on.
+func (sc *Scenario) RunLogged(choices []int) *Outcome { return sc.runOnce(choices, true) }
+
+// FailuresOf applies the scenario's outcome oracle.
+func (sc *Scenario) FailuresOf(o *Outcome) []Failure { return sc.failuresOf(o) }
